@@ -52,7 +52,9 @@ class ImmutableKnotVector(tuple):
             mult = vector.count(knot)
             if mult > degree + 1:
                 return False
-        if vector.count(vector[degree]) != vector.count(vector[npts]):
+        if vector.count(vector[0]) != degree + 1:
+            return False
+        if vector.count(vector[-1]) != degree + 1:
             return False
         return True
 
